@@ -1,6 +1,8 @@
 //! pol-check: C22, C23, C24, C28, C30 — bounded exhaustive enumeration of policy programs run on the
 //! real parser + compiler + VM against a reference interpreter written in the harness.
 mod c22;
+mod c23;
+mod c30;
 mod gen;
 mod lang;
 mod vmrun;
@@ -9,6 +11,8 @@ fn main() {
     let args = mcx::parse_args();
     match args.prop.as_str() {
         "C22" => c22::run(&args),
+        "C23" => c23::run(&args),
+        "C30" => c30::run(&args),
         p => mcx::machinery_error(&format!("pol-check does not serve {p}")),
     }
 }
